@@ -55,6 +55,7 @@ func runReplayFile(path string, fs *hx.FindingSet) error {
 //   - fails and id is listed status=known    -> KNOWN-FINDING line, exclude the trigger shape
 //   - fails and id is fixed or not listed    -> VIOLATION (recurrence / unlisted defect); the
 //     trigger shape is still excluded so that the search continues behind it
+//
 // It returns whether the trigger shape must be excluded from the generators.
 func witnessVerdict(t *testing.T, c *hx.Collector, fs *hx.FindingSet, id string, err error, trace interface{}) bool {
 	c.Count("witness:"+id, false, "witness")
